@@ -252,6 +252,18 @@ def run_case(spec, inputs=None):
                 iso = lambda d: None if d is None else d.isoformat()  # noqa: E731  ISO strings with their offset
                 h = VersionedDataHandler("2031-01-01_XX_G", "G", "county", estimands=["margin"], sample=sc["sample"],
                                          tzinfo=sc["zone"], start_date=iso(b_start), end_date=iso(b_end))
+                if spec["i"] % 2 == 0:
+                    # a second handler for another window / zone is built in the same process before the first one is
+                    # used (two offices polled side by side): each must keep its own window
+                    decoy = VersionedDataHandler("2031-01-01_XX_G", "G", "county", estimands=["margin"], sample=1,
+                                                 tzinfo="Asia/Tokyo", start_date="1999-01-01T00:00:00+00:00",
+                                                 end_date="1999-01-02T00:00:00+00:00")
+                    out["counters"]["handlers_side_by_side"] = 1
+                    try:
+                        if decoy.s3_client is not h.s3_client:
+                            decoy.s3_client.manager.shutdown()
+                    except Exception:  # noqa: BLE001
+                        pass
                 hc = h.s3_client.s3_client  # the handler's own client (it converted the ISO bounds itself)
                 hc.list_object_versions, hc.head_object, hc.get_object = (svc.list_object_versions, svc.head_object,
                                                                           svc.get_object)
